@@ -199,7 +199,7 @@ def grid_cases(ctx):
                 for off in offs:
                     out.append((a, b, md, off))
     ctx.rng.shuffle(out)
-    out = out[:ctx.n(2500, 40000)]
+    out = out[:ctx.n(2500, 25000)]
     return [mk("assoc" if k % 3 == 0 else "match", a, b, md, off) for k, (a, b, md, off) in enumerate(out)]
 
 
@@ -208,9 +208,9 @@ def random_cases(ctx):
     out = []
     n_cases = ctx.n(260, 1500)
     for k in range(n_cases):
-        big = (not ctx.quick) and k % 100 == 0
-        n1 = int(rng.integers(1, 5000 if big else ctx.n(120, 300)))
-        n2 = int(rng.integers(1, 5000 if big else ctx.n(120, 300)))
+        big = (not ctx.quick) and k % 250 == 0
+        n1 = int(rng.integers(1000, 5000)) if big else int(rng.integers(1, ctx.n(120, 300)))
+        n2 = int(rng.integers(1000, 5000)) if big else int(rng.integers(1, ctx.n(120, 300)))
         mode = k % 6
         base = 1.5e9 if k % 4 == 0 else 0.0
         rate1 = float(rng.choice([0.01, 0.05, 0.1, 1.0]))
